@@ -50,8 +50,9 @@ fn run(a: &[String], data: Vec<u8>) {
         "kernel" => {
             // 256 coefficients; each kernel maps them into its documented input range WITHOUT branching on them
             let raw: [i32; 256] = core::array::from_fn(|i| i32::from_le_bytes(data[4 * i..4 * i + 4].try_into().unwrap()));
-            let modq: [i32; 256] = core::array::from_fn(|i| raw[i].rem_euclid(Q));          // [0, q)   (division: see DESIGN, operand-dependent timing is not in a lackey trace)
-            let cent: [i32; 256] = core::array::from_fn(|i| modq[i] - (Q - 1) / 2);            // (-q/2, q/2]
+            // branch-free maps (masks, no comparisons that could compile to jumps): 0 stays 0, -1 stays -1, ...
+            let modq: [i32; 256] = core::array::from_fn(|i| { let r = raw[i] % Q; r + ((r >> 31) & Q) });      // [0, q)
+            let cent: [i32; 256] = core::array::from_fn(|i| modq[i] - (((Q / 2 - modq[i]) >> 31) & Q));        // (-q/2, q/2]
             let g1 = 1 << 19;
             let small: [i32; 256] = core::array::from_fn(|i| (raw[i] & (2 * g1 - 1)) - g1 + 1); // [-gamma1+1, gamma1]
             let eta: [i32; 256] = core::array::from_fn(|i| (raw[i] & 3) - 2 + ((raw[i] >> 2) & 1)); // [-2, 2]
